@@ -24,23 +24,41 @@ def _clean_point(pt):
 
 
 class Driver:
-    def __init__(self, tf, csv, auto, workdir, csv_kwargs=None):
+    def __init__(self, tf, csv, auto, workdir, csv_kwargs=None, decoys=False):
         self.tf, self.csv, self.workdir = tf, csv, workdir
         self.csv_kwargs = csv_kwargs or {}
+        self.decoys = []
+        self._reuse, self._n_single = None, 0
         if csv:
             self.path = os.path.join(workdir, "db.csv")
+            # other databases with OTHER csv options are open in the same process, one constructed before and one after the database under
+            # test: csv options belong to a database object, not to the process
+            # (only in the database-level ties: the I/O checks watch the directory)
+            if decoys:
+                self._decoy(tf, "decoy0.csv", {"delimiter": "\t", "quotechar": "|"})
             self.db = tf.TinyFlux(self.path, auto_index=auto, **self.csv_kwargs)
+            if decoys:
+                self._decoy(tf, "decoy1.csv", {"delimiter": ":", "quotechar": "~", "lineterminator": "\n"} if self.csv_kwargs.get("delimiter") != ":" else {})
         else:
             from tinyflux.storages import MemoryStorage
             self.db = tf.TinyFlux(storage=MemoryStorage, auto_index=auto)
         self.handles = {}
         self.builders = {}          # query builder objects shared by every query of this history (dbmodel.real_query)
 
-    def close(self):
+    def _decoy(self, tf, name, kw):
         try:
-            self.db.close()
-        except Exception:
+            d = tf.TinyFlux(os.path.join(self.workdir, name), **kw)
+            d.insert(tf.Point(measurement="decoy", tags={"a": "x,y"}, fields={"a": 1}))
+            self.decoys.append(d)
+        except Exception:  # noqa  a decoy that cannot be built is simply absent
             pass
+
+    def close(self):
+        for d in [self.db] + self.decoys:
+            try:
+                d.close()
+            except Exception:
+                pass
 
     def handle(self, name):
         # obtained once and kept: exercises handles obtained before the data changed
@@ -71,6 +89,22 @@ class Driver:
         from datetime import datetime, timezone
         self._clock0 = datetime.now(timezone.utc)
         share = {}
+        if self.csv and len(pts) == 1 and pts[0] is not None and pts[0]["time"] is not None:
+            # CSV storage keeps rows, not objects: a caller may fill ONE Point object again and again (a sensor loop), editing its tags and
+            # fields mappings IN PLACE between inserts - every insert must store the object's contents at that moment.  Every third single
+            # insert of a history reuses the object of the previous one.  (MemoryStorage keeps the caller's objects: known finding F16b.)
+            self._n_single += 1
+            if self._reuse is not None and self._n_single % 3 == 0:
+                pt, p = self._reuse, pts[0]
+                pt.time = p.get("dt") or zoned_dt(p["time"])
+                pt.measurement = p["meas"]
+                for slot, new in ((pt.tags, p["tags"]), (pt.fields, p["fields"])):
+                    for k_ in list(slot):
+                        del slot[k_]
+                    slot.update(new)
+                return [pt]
+            self._reuse = real_point(self.tf, pts[0], share)
+            return [self._reuse]
         return [real_point(self.tf, p, share) if p is not None else "not a point" for p in pts]
 
     def _do(self, o):
@@ -229,7 +263,7 @@ def run_history(tf, csv, auto, ops, workdir, csv_kwargs=None):
     os.makedirs(tmp, exist_ok=True)
     old = tempfile.tempdir
     tempfile.tempdir = tmp
-    d = Driver(tf, csv, auto, workdir, csv_kwargs)
+    d = Driver(tf, csv, auto, workdir, csv_kwargs, decoys=True)
     outs = []
     try:
         for o in ops:
